@@ -77,6 +77,8 @@ def do_fs(case) -> dict:
                 builder.addModule(r)
         except model.SystemBuildingError:
             events.append([-1])
+        except Exception as e:              # a crash of pydoctor itself (C01 territory): reported as a mismatch
+            events.append([-3, type(e).__name__])
         return {'events': events,
                 'unproc': [[path_of(m), 1 if isinstance(m, model.Package) else 0]
                            for m in system.unprocessed_modules],
